@@ -102,6 +102,7 @@ def sub_entry(rng, pool=None):
     if pool and rng.random() < 0.6:          # come back to a subscription used before (refresh / stop / other TTL)
         e = dict(rng.choice(pool))
         e["ttl"] = rng.choice([0, 1, 2, 3, 3, 16777215, 16777215])
+        e["acc"] = rng.random() < 0.8
         return e
     e = _fresh_sub(rng)
     pool.append(e)
@@ -112,7 +113,8 @@ def _fresh_sub(rng):
     svc = rng.choice(["s1", "s1", "s1", "s2", "s3", "s4"])
     eps = rng.choice([["e1"], ["e1"], ["e2"], ["e3"], ["e1", "e2"], []])
     return {"ty": "sub", "svc": svc, "eg": rng.choice([1, 1, 2, 3]), "ctr": rng.choice([0, 0, 1, 7, 15]),
-            "eps": sorted(eps), "ttl": rng.choice([0, 1, 2, 3, 3, 16777215]), "opts": rng.choice([[], [], ["x1"]])}
+            "eps": sorted(eps), "ttl": rng.choice([0, 1, 2, 3, 3, 16777215]), "opts": rng.choice([[], [], ["x1"]]),
+            "acc": rng.random() < 0.7}
 
 
 def run(seed, count, length, insts, variants, monitor_cfg_extra=None, **kw):
